@@ -165,9 +165,25 @@ def flip(rec, subset):
 
 # ---- atlas decorations ----------------------------------------------------------------------------------------------------
 
+def _cumulene_paths(g):
+    """chains of 1-3 consecutive edges whose inner atoms have degree 2 and whose ends carry one or two more substituents"""
+    import networkx as nx
+    deg = dict(g.degree())
+    nodes = list(g.nodes)
+    paths = []
+    for x in nodes:
+        for y in nodes:
+            if x < y:
+                for pth in nx.all_simple_paths(g, x, y, cutoff=3):
+                    if all(deg[v] == 2 for v in pth[1:-1]) and all(2 <= deg[v] <= 3 for v in (pth[0], pth[-1])):
+                        paths.append(pth)
+    return paths
+
+
 def _decorate(g, r, kind):
     """seeded decoration of an atlas graph: (atoms, bonds); kinds: plain (all-carbon, single bonds), mixed (elements + bond orders),
-    stereo (distinct leaves on a carbon/nitrogen skeleton), cumul (a chain of 1-3 consecutive double bonds + distinct leaves)"""
+    stereo (distinct leaves on a carbon/nitrogen skeleton), cumul (a chain of 1-3 consecutive double bonds + distinct leaves),
+    polyene (matching of double bonds)"""
     deg = dict(g.degree())
     nodes = list(g.nodes)
     if kind == 'plain':
@@ -177,15 +193,30 @@ def _decorate(g, r, kind):
     else:
         el = {v: (r.choice(LEAF_ELEMENTS) if deg[v] <= 1 and r.random() < .5 else r.choice(ELEMENTS)) for v in nodes}
     od = {e: 1 for e in g.edges}
-    if kind == 'cumul':
-        # random walk over degree-2 inner nodes: consecutive double bonds
-        start = r.choice(nodes)
-        path, want = [start], r.choice((1, 1, 2, 2, 3))
-        while len(path) <= want:
-            nxt = [x for x in g[path[-1]] if x not in path and deg[x] <= 3]
-            if not nxt or (len(path) > 1 and deg[path[-1]] != 2):
-                break
-            path.append(r.choice(nxt))
+    if kind == 'polyene':
+        # seeded maximal matching on the atoms of degree <= 3: a Kekule-like pattern of double bonds (conjugated, often non-aromatic
+        # rings - the inputs where bond orders, not hydrogen counts, have to break ties), carbon with a few nitrogens
+        el = {v: (r.choice(('C', 'C', 'C', 'C', 'N')) if deg[v] >= 2 else r.choice(('C', 'C', 'O', 'S', 'N'))) for v in nodes}
+        used = set()
+        edges = list(g.edges)
+        r.shuffle(edges)
+        for a, b in edges:
+            if a in used or b in used or deg[a] > 3 or deg[b] > 3 or r.random() < .15:
+                continue
+            od[(a, b)] = 2
+            used.add(a)
+            used.add(b)
+    elif kind == 'cumul':
+        # a chain of 1-3 consecutive double bonds whose inner atoms have degree 2 and whose ends carry at least one substituent:
+        # stereogenic alkenes, allenes, cumulenes whenever the decoration makes the substituents distinct
+        paths = _cumulene_paths(g)
+        long = [pth for pth in paths if len(pth) >= 3]
+        if long and r.random() < .6:
+            path = r.choice(long)
+        elif paths:
+            path = r.choice(paths)
+        else:
+            path = [nodes[0]]
         for a, b in zip(path, path[1:]):
             od[(a, b) if (a, b) in od else (b, a)] = 2
             el[a] = el[b] = 'C'
@@ -307,14 +338,17 @@ def atlas_records(max_nodes, trials, tag='d01', stereo=True, components=True, ma
     """decorated atlas records (valence-valid only), de-duplicated by decoration.  Deterministic for a given VERIF_SEED."""
     import networkx as nx
     out = []
-    kinds = ('stereo', 'mixed', 'cumul', 'sym')
+    kinds = ('stereo', 'mixed', 'cumul', 'sym', 'polyene')
     for g in D.atlas(max_nodes):
         seen = set()
         gname = g.name
         r = D.rnd(f'{tag}:{gname}')  # one generator per graph: decoration #t of graph G is the same molecule in every tier / check
         tree = nx.is_tree(g)
-        for t in range(trials + (trials if tree else 0)):  # trees carry most of the stereo that is outside the documented gaps
-            kind = 'plain' if t == 0 else kinds[t % 4]
+        plan = ['plain'] + [kinds[(t - 1) % 5] for t in range(1, trials + (trials if tree else 0))]
+        # trees carry most of the stereo that is outside the documented gaps; graphs that can hold an allene / cumulene get more of those
+        if any(len(pth) >= 3 for pth in _cumulene_paths(g)):
+            plan += ['cumul'] * 3
+        for t, kind in enumerate(plan):
             base = _decorate_sym(g, r) if kind == 'sym' else _decorate(g, r, kind)
             cands = [base]
             if kind in ('mixed', 'sym') or t == 0:
